@@ -1,4 +1,4 @@
-"""libext (C17 round 3, agent c17e): the dictionary idioms of biogeme/segmentation.py.
+"""libext (C17 round 3, agent c17e): the dictionary / comprehension idioms of biogeme/segmentation.py.
 
 SCOPE: every handler is active only while a function of biogeme.segmentation is verified for property C17
 (ctx.prop == 'C17' and ctx.fn_label starts with 'segmentation.'); otherwise the core behaviour is unchanged.
@@ -6,6 +6,14 @@ SCOPE: every handler is active only while a function of biogeme.segmentation is 
 LIBSPEC x in d.values():  exists a position j of the key list of d with d[keys(d)[j]] == x.
 LIBSPEC next(iter(view)) for a dict view / list: StopIteration iff the view is empty, else its element at position 0
         (iter(...) yields an opaque one-shot iterator value that only next() consumes, once).
+LIBSPEC {k: v for k, v in src if cond} of symbolic length: a new dict holding exactly the kept entries (see below).
+LIBSPEC [e for s in A for x in inner(s)]: the flattened list, numbered by c17e_off / c17e_seg / c17e_cat (specs/c17e_specs.py);
+        that the inner sequences have the lengths of that numbering is a proof obligation, not an assumption.
+ENGINE  `a if c else K(...)`: paths forked on the test (the core writes the allocation of one branch unconditionally).
+ENGINE  a PURE callee with a `raises` clause: under a comprehension binder the clause becomes the obligation
+        safe:no-raise-under-binder:<callee>:<exception>; inside a specification its postconditions are assumed under
+        `does not raise`.  The postconditions of a pure LIST-valued callee are assumed for the returned sequence value
+        (the core drops them at call sites).
 """
 import z3
 
